@@ -20,6 +20,6 @@ Definition set_iteration_sites : list (string * string * nat * string * iter_kin
    ("sidemantic/sql/generator.py", "_build_model_cte", 1152, "all_metric_columns", Sorted);
    ("sidemantic/sql/generator.py", "_build_model_cte", 1169, "all_metric_columns", Irrelevant);
    ("sidemantic/sql/generator.py", "_build_model_cte", 1175, "measures_needed", Sorted);
-   ("sidemantic/sql/generator.py", "_build_metric_sql", 2168, "dependencies", Sorted);
-   ("sidemantic/sql/generator.py", "collect_leaf_base_metrics", 2533, "dependencies", Sorted);
-   ("sidemantic/sql/generator.py", "build_time_comparison_base_expression", 2677, "metric_obj.get_dependencies(self.graph, resolved_context)", Sorted)].
+   ("sidemantic/sql/generator.py", "_build_metric_sql", 2178, "dependencies", Sorted);
+   ("sidemantic/sql/generator.py", "collect_leaf_base_metrics", 2547, "dependencies", Sorted);
+   ("sidemantic/sql/generator.py", "build_time_comparison_base_expression", 2691, "metric_obj.get_dependencies(self.graph, resolved_context)", Sorted)].
